@@ -155,6 +155,11 @@ def body_select(case, ctx):
         ctx.label("sel%d:%s" % (depth, sel[0]))
         exp, single = sel_rows(cur_rows, sel)
         idx = py_sel(sel)
+        form = case.get("forms", ["plain", "plain"])[depth % 2]
+        if form == "r-ell" and case["kind"] == "2d" and sel[0] != "i":
+            form = "tuple1"    # x[rows, ...] runs through the column-range code, which the property claims for the ragged variant only
+        ctx.label("form:" + form)
+        idx = {"plain": idx, "tuple1": (idx,), "r-ell": (idx, Ellipsis)}[form]
         got = lib(lambda: cur[idx])
         if not exp:
             ctx.label("empty-selection")
@@ -464,7 +469,8 @@ def sequence_case(draw, tier):
 @st.composite
 def row_st(draw, dt, n):
     cuts = draw(st.lists(st.integers(1, max(n - 1, 1)), max_size=4))
-    vals = draw(st.lists(gen.elem(dt, specials=False, mag=8), min_size=1, max_size=3))
+    # small-width integer dtypes use their full range (column sums must not wrap); wider ones stay small
+    vals = draw(st.lists(gen.elem(dt, specials=False, mag=None if dt in ("int8", "uint8") else 8), min_size=1, max_size=3))
     return {"n": n, "c": cuts, "v": vals}
 
 
@@ -498,6 +504,7 @@ RAW_SEL_NOINT = st.one_of(
 def select_case(draw, tier):
     case = draw(arr_st())
     case["sels"] = draw(st.lists(RAW_SEL, min_size=0, max_size=2))
+    case["forms"] = [draw(st.sampled_from(["plain", "plain", "tuple1", "r-ell"])) for _ in range(2)]
     case["then"] = draw(st.one_of(st.sampled_from([["decode"], ["sum"], ["any"], ["colsum"], ["ufunc"], ["meta"]]),
                                   st.tuples(st.just("elem"), st.integers(0, 100), st.integers(0, 100)).map(list)))
     return case
